@@ -609,6 +609,14 @@ func c10Child(scPath string) int {
 		caseCPUStart.Store(cpuNow())
 		cur.Store(int64(i))
 		c := c10GenCase(sc.Seed, i)
+		// configuration is part of the input space: every fifth input is served to a crawler that does not
+		// capture assets and is at its hop limit (the stages are idle between inputs, so the two word-sized
+		// stores do not race with them)
+		cfgNow := config.Get()
+		cfgNow.DisableAssetsCapture, cfgNow.MaxHops = false, 1
+		if i%5 == 4 {
+			cfgNow.DisableAssetsCapture, cfgNow.MaxHops = true, 0
+		}
 		seed, err := newSeed(fmt.Sprintf("k%d", i), c.SeedURL, "", 0)
 		if err == nil {
 			cr := h.crawl(seed, func(it *models.Item, wire string) *fakeResp {
